@@ -23,7 +23,7 @@ from . import layera_match as LAM
 PROP = "C03"
 META = {
     "bounds": {
-        "quick": "instance grids 3x3 with <= 3 overlapping candidate pairs, 2x2 and 2x3 with <= 4; the whole matcher on 2-3 voxel geometry classes with free label values per dtype; metrics IOU/DSC/ASSD; allow_many_to_one in {False, True}; "
+        "quick": "instance grids 3x3 with <= 3 overlapping candidate pairs, 2x2 with <= 4 and 2x3 with <= 3; the whole matcher on 2-3 voxel geometry classes with free label values per dtype; metrics IOU/DSC/ASSD; allow_many_to_one in {False, True}; "
                  "scores free reals in the metric range, thresholds free reals; second (stricter) threshold for monotonicity",
         "thorough": "3x3 with <= 4 pairs, 2x3 and 3x2 with <= 5 pairs; same option space",
     },
@@ -40,11 +40,12 @@ META = {
 
 def cases(tier):
     out = []
-    grids = [(3, 3, 3), (2, 2, 4), (2, 3, 4)] if tier == "quick" else [(3, 3, 4), (2, 3, 5), (3, 2, 5)]
+    grids = [(3, 3, 3), (2, 2, 4), (2, 3, 3)] if tier == "quick" else [(3, 3, 4), (2, 3, 5), (3, 2, 5)]
     for metric in ("IOU", "DSC", "ASSD"):
         for many in (False, True):
             for R, Pn, mp in grids:
-                out.append({"name": "%s_many%d_%dx%d_le%d" % (metric, many, R, Pn, mp), "metric": metric, "many": many, "R": R, "P": Pn, "maxpairs": mp})
+                out.append({"name": "%s_many%d_%dx%d_le%d" % (metric, many, R, Pn, mp), "metric": metric, "many": many, "R": R, "P": Pn, "maxpairs": mp,
+                            "reuse": (R, Pn) == (2, 2) and metric == "IOU"})
     # layer A: the whole matcher (real overlap-pair extraction, kernels, relabelling) for every label value and dtype
     out += LAM.matcher_cases(tier, PROP)
     return out
@@ -90,7 +91,8 @@ def run_case(case):
         return {"metric": metric, "many": many, "R": R, "P": Pn,
                 "flags": [[bool(jsonable(ov[r][p], m)) for p in range(Pn)] for r in range(R)],
                 "scores": [[jsonable(sc[r][p], m) for p in range(Pn)] for r in range(R)],
-                "thr": jsonable(thr, m), "thr2": jsonable(thr2, m)}
+                "thr": jsonable(thr, m), "thr2": jsonable(thr2, m), "reuse": bool(case.get("reuse")),
+                "scores2": [[jsonable(sc2[r][p], m) for p in range(Pn)] for r in range(R)]}
     h = H(PROP, case["name"], decode, replay_kind="abstract" if metric != "ASSD" else "abstract_search", max_witnesses=case.get("max_witnesses", 40))
 
     def beats(s, t):
@@ -99,11 +101,22 @@ def run_case(case):
     def good(a, b):
         return a >= b if inc else a <= b
 
-    def match(t):
-        pair = PP.UnmatchedInstancePair(pred_arr, ref_arr)
-        matcher = IM.NaiveThresholdMatching(met, SNum(t, None), many)
+    def match(t, pair=None, metric_obj=None):
+        pair = pair or PP.UnmatchedInstancePair(pred_arr, ref_arr)
+        matcher = IM.NaiveThresholdMatching(metric_obj or met, SNum(t, None), many)
         lm = matcher._match_instances(pair)
         return {int(p): int(r) for p, r in lm.labelmap.items()}
+
+    # a second metric with its own free scores, to match the SAME pair object again (multi-step use of one pair)
+    met2 = getattr(MM.Metric, "DSC" if metric != "DSC" else "IOU")
+    sc2 = [[z3.Real("s2_%d_%d" % (r, p)) for p in range(Pn)] for r in range(R)]
+    base += [z3.And(sc2[r][p] > 0, sc2[r][p] <= 1) for r in range(R) for p in range(Pn)]
+
+    def free_metric2(ref_mask, pred_mask, *a, **k):
+        r = [i for i, c in enumerate(ref_mask.cells) if c is True]
+        p = [i - R for i, c in enumerate(pred_mask.cells) if c is True]
+        return SNum(sc2[r[0]][p[0]], "float64")
+    met2.value._metric_function = free_metric2
 
     def body():
         try:
@@ -142,6 +155,19 @@ def run_case(case):
             h.fail("terminates_with_result", detail="%s: %s" % (type(e).__name__, str(e)[:120]))
             return
         h.ok("monotone", all(M.get(p) == r for p, r in M2.items()), detail={"M1": M, "M2": M2})
+        if case.get("reuse"):
+            # the same UnmatchedInstancePair object matched first with this metric, then with another one: same result as on a fresh pair
+            try:
+                shared = PP.UnmatchedInstancePair(pred_arr, ref_arr)
+                match(thr, pair=shared)
+                Mr = match(thr, pair=shared, metric_obj=met2)
+                Mf = match(thr, metric_obj=met2)
+            except EngineSignal:
+                raise
+            except Exception as e:
+                h.fail("terminates_with_result", detail="reused pair: %s: %s" % (type(e).__name__, str(e)[:120]))
+                return
+            h.ok("reusing_a_pair_object_with_another_metric_gives_the_fresh_result", Mr == Mf, detail={"reused": Mr, "fresh": Mf})
         h.witness(expect={"M": {str(k): v for k, v in M.items()}, "M2": {str(k): v for k, v in M2.items()}})
 
     def _decided(b):
@@ -294,12 +320,29 @@ def _run_real(arrs, case, mode, expect):
         reason = "%s: %s" % (type(e).__name__, str(e)[:160])
         return {"violates": True, "reason": "terminates_with_result: " + reason, "observed": {"arrays": arrs, "exception": reason}}
     bad = oracle(arrs["pred"], arrs["ref"], metric, arrs["thr"], many, M, M2)
+    if bad is None and case.get("reuse"):
+        bad = _reuse_real(arrs, metric, many)
     obs = {"arrays": arrs, "M": {str(k): v for k, v in M.items()}, "M2": {str(k): v for k, v in M2.items()}}
     if mode == "witness":
         ok = expect is None or (obs["M"] == expect["M"] and obs["M2"] == expect["M2"])
         return {"match": ok, "why": None if ok else "assignment differs", "violates": bad is not None,
                 "reason": None if bad is None else "%s: %s" % bad, "observed": obs}
     return {"violates": bad is not None, "reason": None if bad is None else "%s: %s" % bad, "observed": obs}
+
+
+def _reuse_real(arrs, metric, many):
+    """one UnmatchedInstancePair object matched with this metric, then with the other overlap metric: must equal the result on a fresh pair"""
+    import numpy as np
+    from panoptica import NaiveThresholdMatching, UnmatchedInstancePair, Metric
+    other = "DSC" if metric != "DSC" else "IOU"
+    p, r = np.array(arrs["pred"], dtype=np.uint8), np.array(arrs["ref"], dtype=np.uint8)
+    shared = UnmatchedInstancePair(p.copy(), r.copy())
+    NaiveThresholdMatching(getattr(Metric, metric), arrs["thr"], many)._match_instances(shared)
+    a = dict(NaiveThresholdMatching(getattr(Metric, other), arrs["thr"], many)._match_instances(shared).labelmap)
+    b = dict(NaiveThresholdMatching(getattr(Metric, other), arrs["thr"], many)._match_instances(UnmatchedInstancePair(p.copy(), r.copy())).labelmap)
+    if a != b:
+        return ("reusing_a_pair_object_with_another_metric_gives_the_fresh_result", "after matching with %s the same pair object gives %s with %s, a fresh pair gives %s" % (metric, a, other, b))
+    return None
 
 
 def real_abstract(case, mode, expect):
